@@ -830,11 +830,31 @@ func c12TLSCorrected(w *W, c *c12, s mangos.Socket, kind, tran string) {
 		return
 	}
 	ps := w.Sock(peerKind[kind])
-	dc := c.do(tran+" peer.Dial(corrected listener)", func() (interface{}, error) {
-		return nil, ps.DialOptions(a, map[string]interface{}{mangos.OptionDialAsynch: false, mangos.OptionTLSConfig: cli})
-	})
+	// the dialling side goes through its own correction: no TLS configuration
+	// (or one that does not trust the server) on the first attempt, the proper
+	// one set on the same dialer for the retry
+	var first interface{}
+	if w.Choose(simrt.SProg, 2) == 0 {
+		first = &tls.Config{ServerName: "not-the-server.invalid", MinVersion: tls.VersionTLS12}
+	}
+	dopts := map[string]interface{}{mangos.OptionDialAsynch: false}
+	if first != nil {
+		dopts[mangos.OptionTLSConfig] = first
+	}
+	d, err := ps.NewDialer(a, dopts)
+	if err != nil {
+		w.Failf("HARNESS/newdialer", "%s: %v", a, err)
+		return
+	}
+	d1 := c.do(tran+" d.Dial(TLS configuration missing or wrong)", func() (interface{}, error) { return nil, d.Dial() })
+	if d1.Returned() && d1.Err == nil {
+		w.Failf("HARNESS/tls", "%s: a Dial without a TLS configuration that trusts the server succeeded", tran)
+		return
+	}
+	c.do(tran+" d.SetOption(TLSConfig, corrected)", func() (interface{}, error) { return nil, d.SetOption(mangos.OptionTLSConfig, cli) })
+	dc := c.do(tran+" d.Dial(corrected)", func() (interface{}, error) { return nil, d.Dial() })
 	if dc.Returned() && dc.Err != nil {
-		w.Failf("C12/retry-failed", "%s: the corrected listener on %s accepts nobody: %v", tran, a, dc.Err)
+		w.Failf("C12/dial-retry-refused", "%s: Dial to %s failed for its TLS configuration (%v); with the configuration corrected on the same dialer the retry returns %v", tran, a, d1.Err, dc.Err)
 	}
 	c.do(tran+" peer.Close", func() (interface{}, error) { return nil, ps.Close() })
 	c.do(tran+" Listener.Close", func() (interface{}, error) { return nil, l.Close() })
